@@ -15,7 +15,11 @@
 #ifndef VF_STRING_SPLIT_STORES
 #define VF_STRING_SPLIT_STORES 48  /* lib/models.h: _M_append writes at constant offsets; results of that many or more characters are reported */
 #endif
-#define VF_STRING_NO_INPLACE_HEAP_APPEND 1   /* lib/models.h: appending within the capacity of a heap buffer never happens here (reported if it does) */
+#ifndef C05P_INPLACE_HEAP_APPEND
+#define VF_STRING_NO_INPLACE_HEAP_APPEND 1   /* lib/models.h: appending within the capacity of a heap buffer does not happen with the quick-tier bounds
+                                                (source:line:column: has at most 13 characters, i.e. stays in the in-object buffer); it would be REPORTED.
+                                                The thorough tier (5-digit numerals) models it (-DC05P_INPLACE_HEAP_APPEND) */
+#endif
 #ifndef C05P_WHAT_CAP
 #define C05P_WHAT_CAP 48           /* c05_perr_models.h: capacity of the what() buffer of std::runtime_error (more is reported) */
 #endif
